@@ -14,7 +14,7 @@ def _layouts(ctx):
     # are not part of the domain: pandas itself reads an integer handed to Index.get_level_values as a level position, e.g. a level named 5 raises IndexError)
     names_pool = [('a',), ('b',), (None,), ('a', 'b'), ('b', 'a'), ('a', None), ('a', 'c'), ('',), ('a', '')]
     keysets = {
-        1: [[(0,), (1,)], [(1,), (0,), (2,)], [(2,)], [(0,), (2,), (1,)]],
+        1: [[(0,), (1,)], [(1,), (0,), (2,)], [(2,)], [(0,), (2,), (1,)], [(0,), (1,), (2,)]],
         2: [[(0, 'x'), (0, 'y'), (1, 'x')], [(1, 'y'), (0, 'x')], [(0, 'x'), (1, 'y'), (2, 'x'), (2, 'y')], [(2, 'y'), (1, 'x'), (0, 'x')]],
     }
     for on, pn in itertools.product(names_pool, repeat=2):
@@ -32,9 +32,18 @@ def _layouts(ctx):
             yield ('b', 'c'), pk, ('a', 'b'), ok
 
 
-def _mk_index(names, keys):
+def _reps(names, keys):
+    """representations of the same index: keys 0..n-1 in order can also be a RangeIndex (a default index that was given a name) - added after seed C13-c"""
+    if len(names) == 1 and [k[0] for k in keys] == list(range(len(keys))):
+        return ('plain', 'range')
+    return ('plain',)
+
+
+def _mk_index(names, keys, rep='plain'):
     import pandas as pd
     if len(names) == 1:
+        if rep == 'range':
+            return pd.RangeIndex(len(keys), name=names[0])
         return pd.Index([k[0] for k in keys], name=names[0])
     return pd.MultiIndex.from_tuples(keys, names=list(names))
 
@@ -62,7 +71,7 @@ def b_align(ctx):
     import pandas as pd
     from pylife.core.broadcaster import Broadcaster
     warnings.simplefilter('ignore')
-    ctx.bound = "object/parameter index names from {(a),(b),(None),(a,b),(b,a),(a,None),(a,c),(''),(a,'')}^2 (integer level names excluded: pandas reads them as level positions), 4 key sets per arity over {0,1,2} x {x,y} (sizes 1-4, shuffled), object in {Series, DataFrame(2 cols)}, parameter in {Series, DataFrame}; chained layouts (a,b) x (b,c) pairing 1:1 in the same / another order or multiplying rows; plus scalar and array parameters"
+    ctx.bound = "object/parameter index names from {(a),(b),(None),(a,b),(b,a),(a,None),(a,c),(''),(a,'')}^2 (integer level names excluded: pandas reads them as level positions), 4-5 key sets per arity over {0,1,2} x {x,y} (sizes 1-4, shuffled; keys 0..n-1 in order also as a RangeIndex), object in {Series, DataFrame(2 cols)}, parameter in {Series, DataFrame}; chained layouts (a,b) x (b,c) pairing 1:1 in the same / another order or multiplying rows; plus scalar and array parameters"
     ctx.rule = "non-trivial: the two operands do not have the same index; distinct by (object kind, parameter kind, layout)"
     ctx.exhaustive = True
 
@@ -83,19 +92,19 @@ def b_align(ctx):
             continue        # two unnamed levels cannot be told apart by name: not a layout of the statement (they are treated as different levels)
         if len(set(on)) < len(on) or len(set(pn)) < len(pn):
             continue
-        for okind, pkind in itertools.product(('series', 'frame'), ('series', 'frame')):
-            oi, pi = _mk_index(on, ok), _mk_index(pn, pk)
+        for okind, pkind, orep, prep in itertools.product(('series', 'frame'), ('series', 'frame'), _reps(on, ok), _reps(pn, pk)):
+            oi, pi = _mk_index(on, ok, orep), _mk_index(pn, pk, prep)
             ov, pv = _key_value(on, ok), [v + 5000 for v in _key_value(pn, pk)]
             obj = pd.Series(ov, index=oi, name='obj') if okind == 'series' else pd.DataFrame({'u': ov, 'w': [v + 0.5 for v in ov]}, index=oi)
             prm = pd.Series(pv, index=pi, name='prm') if pkind == 'series' else pd.DataFrame({'p': pv, 'q': [v + 0.25 for v in pv]}, index=pi)
             snap_o, snap_p = obj.copy(deep=True), prm.copy(deep=True)
             snap_oi, snap_pi = obj.index.copy(deep=True), prm.index.copy(deep=True)
-            label = f"{okind} {list(on)} x {pkind} {list(pn)}"
-            ctx.case(not oi.equals(pi), key=(okind, pkind, on, tuple(ok), pn, tuple(pk)))
+            label = f"{okind} {list(on)}{'(RangeIndex)' if orep == 'range' else ''} x {pkind} {list(pn)}{'(RangeIndex)' if prep == 'range' else ''}"
+            ctx.case(not oi.equals(pi), key=(okind, pkind, on, tuple(ok), pn, tuple(pk), orep, prep))
             try:
                 rp, ro = Broadcaster(obj).broadcast(prm)
             except Exception as e:   # noqa
-                ctx.fail(f'C13:raises:{type(e).__name__}', f'broadcast raises {type(e).__name__}: {e} for {label}, keys {ok} / {pk}', {'obj_names': on, 'obj_keys': ok, 'prm_names': pn, 'prm_keys': pk})
+                ctx.fail(f'C13:raises:{type(e).__name__}', f'broadcast raises {type(e).__name__}: {e} for {label}, keys {ok} / {pk}', {'obj_names': on, 'obj_keys': ok, 'prm_names': pn, 'prm_keys': pk, 'reps': [orep, prep]})
                 continue
             # documented special case: a Series object with an unnamed index is a bag of named parameters and becomes the columns of a frame
             # indexed like the parameter (Broadcaster class documentation, third layout)
@@ -104,14 +113,14 @@ def b_align(ctx):
                        and all((ro.iloc[i].values == np.asarray(ov)).all() for i in range(len(ro))) and rp.equals(prm))
                 if not okc:
                     ctx.fail('C13:unnamed-series-object', f'unnamed Series object not broadcast to the columns of a frame indexed like the parameter: {label}, keys {ok} / {pk}',
-                             {'obj_names': on, 'obj_keys': ok, 'prm_names': pn, 'prm_keys': pk})
+                             {'obj_names': on, 'obj_keys': ok, 'prm_names': pn, 'prm_keys': pk, 'reps': [orep, prep]})
                 if not (obj.equals(snap_o) and prm.equals(snap_p) and list(prm.index.names) == list(snap_pi.names)):
                     ctx.fail('C13:operand-modified', f'an operand was modified by broadcast: {label}', None)
                 continue
             # operands unmodified
             if not (obj.equals(snap_o) and prm.equals(snap_p) and obj.index.equals(snap_oi) and prm.index.equals(snap_pi)
                     and list(obj.index.names) == list(snap_oi.names) and list(prm.index.names) == list(snap_pi.names)):
-                ctx.fail('C13:operand-modified', f'an operand was modified by broadcast: {label}, keys {ok} / {pk}', {'obj_names': on, 'obj_keys': ok, 'prm_names': pn, 'prm_keys': pk})
+                ctx.fail('C13:operand-modified', f'an operand was modified by broadcast: {label}, keys {ok} / {pk}', {'obj_names': on, 'obj_keys': ok, 'prm_names': pn, 'prm_keys': pk, 'reps': [orep, prep]})
             # identical index
             if not ro.index.equals(rp.index) or list(ro.index.names) != list(rp.index.names):
                 order = 'level-order-only' if (set(ro.index.names) == set(rp.index.names) and len(ro) == len(rp)
@@ -129,7 +138,7 @@ def b_align(ctx):
                     return tuple(zip(*out))
                 coincide = 'coinciding-positional-codes' if (len(on) == len(pn) and codes(on, ok) == codes(pn, pk)) else 'different-codes'
                 ctx.fail(f'C13:index-not-identical:{order}:{cat}:{coincide}', f'result indices differ ({list(ro.index.names)} vs {list(rp.index.names)}) for {label}, keys {ok} / {pk}',
-                         {'obj_names': on, 'obj_keys': ok, 'prm_names': pn, 'prm_keys': pk})
+                         {'obj_names': on, 'obj_keys': ok, 'prm_names': pn, 'prm_keys': pk, 'reps': [orep, prep]})
                 if order != 'level-order-only':
                     continue
                 rp = rp.reorder_levels(list(ro.index.names))
@@ -154,7 +163,7 @@ def b_align(ctx):
                     bad = f'row {rk}: object value {go} (expected {wo}), parameter value {gp} (expected {wp})'
                     break
             if bad:
-                ctx.fail('C13:row-values', f'{bad} for {label}, keys {ok} / {pk}', {'obj_names': on, 'obj_keys': ok, 'prm_names': pn, 'prm_keys': pk})
+                ctx.fail('C13:row-values', f'{bad} for {label}, keys {ok} / {pk}', {'obj_names': on, 'obj_keys': ok, 'prm_names': pn, 'prm_keys': pk, 'reps': [orep, prep]})
             # every key of both operands appears
             def okey_of(rk):
                 rk = rk if isinstance(rk, tuple) else (rk,)
@@ -163,7 +172,7 @@ def b_align(ctx):
                 except ValueError:
                     return None
             if not bad and okeys and not all(any(okey_of(rk) == k for rk in ro.index) for k in okeys):
-                ctx.fail('C13:row-lost', f'an object row is missing in the result for {label}, keys {ok} / {pk}', {'obj_names': on, 'obj_keys': ok, 'prm_names': pn, 'prm_keys': pk})
+                ctx.fail('C13:row-lost', f'an object row is missing in the result for {label}, keys {ok} / {pk}', {'obj_names': on, 'obj_keys': ok, 'prm_names': pn, 'prm_keys': pk, 'reps': [orep, prep]})
     # scalar / array parameters
     if ctx.shard == 0:
         import pandas as pd
@@ -242,6 +251,23 @@ class GIndex:
             return len(self.names)
         self.world.may_fail(f'{self.tag}.{attr}')
         return Havoc(self.world, f'{self.tag}.{attr}')
+
+    def pv_len(self):
+        from pv.sym import SV
+        if not hasattr(self, '_len'):
+            n = self.world.I.fresh('len', 'int')
+            self.world.I.assume(n >= 0)
+            self._len = SV(n)
+        return self._len
+
+    def pv_isinstance(self, cls):
+        # which pandas index class it is, is not part of the ghost state: either answer is possible (a fixed answer per index and class)
+        from pv.sym import SV
+        key = getattr(cls, 'label', repr(cls))
+        memo = self.__dict__.setdefault('_isinst', {})
+        if key not in memo:
+            memo[key] = SV(self.world.I.fresh('isinstance', 'bool'))
+        return memo[key]
 
     def pv_setattr(self, attr, value):
         from pv.interp import PList, Unsupported
